@@ -188,6 +188,30 @@ def check_rst(report):
     fi = m.func("gapic.utils.rst.rst")
     fn, p = fi.node, fi.module.path
     rets = [n for n in ast.walk(fn) if isinstance(n, ast.Return)]
+    # `return helper(answer)` with a module-level helper of one parameter: the helper's statements are the tail of rst() (inlined, its
+    # parameter renamed to the argument), so guards extracted into a function are judged like guards written in place
+    if len(rets) == 1 and isinstance(rets[0].value, ast.Call) and isinstance(rets[0].value.func, ast.Name) and len(rets[0].value.args) == 1 \
+            and isinstance(rets[0].value.args[0], ast.Name) and not rets[0].value.keywords and rets[0] is fn.body[-1]:
+        hq = f"{fi.module.name}.{rets[0].value.func.id}"
+        if hq in m.functions and len(m.functions[hq].node.args.args) == 1:
+            import copy
+            hnode = copy.deepcopy(m.functions[hq].node)
+            par_, arg_ = hnode.args.args[0].arg, rets[0].value.args[0].id
+
+            class _Ren(ast.NodeTransformer):
+                def visit_Name(self, n):
+                    return ast.copy_location(ast.Name(id=arg_, ctx=n.ctx), n) if n.id == par_ else n
+            tail = [_Ren().visit(st) for st in hnode.body if not (isinstance(st, ast.Expr) and isinstance(st.value, ast.Constant))]
+            fn = copy.deepcopy(fn)
+            fn.body = fn.body[:-1] + tail
+            ast.fix_missing_locations(fn)
+            # positions: helper statements come after everything in rst()
+            base = max((getattr(x, "lineno", 0) for x in ast.walk(ast.Module(body=fn.body[:-len(tail)], type_ignores=[]))), default=0) + 1
+            for k, st in enumerate(tail):
+                for x in ast.walk(st):
+                    if hasattr(x, "lineno"):
+                        x.lineno = base + k
+            rets = [n for n in ast.walk(fn) if isinstance(n, ast.Return)]
     r.need(len(rets) == 1 and isinstance(rets[0].value, ast.Name), "single `return answer`")
     A = rets[0].value.id
     cfg = CFG(fn.body)
